@@ -1191,7 +1191,7 @@ def likelihood_term_cases():
     return out
 
 
-def magnitude_contrast_cases():
+def magnitude_contrast_cases(thorough=True):
     """tree likelihoods on a 16-taxon tree with many changes per site, in single precision (the library default) and
     in double, with and without the rescaled pass switched on beforehand: used with ONE sample of the batch holding
     very short (or very long) branches / a tiny clock rate while the others are ordinary — the samples then differ by
@@ -1204,4 +1204,10 @@ def magnitude_contrast_cases():
             out.append(case_tree_likelihood(16, "HKY", "Weibull", "time", "strict", cats=2, single=single, rescale=rescale))
     out.append(case_tree_likelihood(16, "JC69", "Weibull", "time", "strict", cats=2, tip_states=True, single=True))
     out.append(case_tree_likelihood(12, "GTR", "Constant", "unrooted", single=True, rescale=True))
+    if not thorough:  # quick: both precisions, both ways into the rescaled pass, partials and tip states
+        keep = ("TreeLikelihood[JC69,Constant,unrooted,n=16,float32]",
+                "TreeLikelihood[HKY,Weibull,time,strict,n=16,float32,rescale]",
+                "TreeLikelihood[JC69,Constant,unrooted,n=16,rescale]",
+                "TreeLikelihood[JC69,Weibull,time,strict,tipstates,n=16,float32]")
+        out = [c for c in out if c.name in keep]
     return out
